@@ -27,7 +27,7 @@ def _rt(qt, cap, mx):
 
 
 def _rtjob(binname, prop, quick_cases=40, quick_procs=2):
-    return {"bin": binname, "params": {"prop": prop}, "confirm": 2,
+    return {"bin": binname, "params": {"prop": prop}, "realthread": True,
             "quick": {"cases": quick_cases, "procs": quick_procs, "maxlen": 400},
             "thorough": {"cases": 1500, "procs": 4, "maxlen": 400}}
 
